@@ -149,3 +149,40 @@ func H19_NullReused() {
 		vrt.Assert("interned == plain into re-used targets", oi.U.Valid == op.U.Valid && oi.U.String == op.U.String)
 	}
 }
+
+
+// H19_ManyValues: a long history of distinct values (more than any small
+// table or slab would hold), then symbolic ones: everything returned earlier
+// keeps its value, interned == plain, and nothing aliases the input buffer.
+func H19_ManyValues() {
+	vrt.MapOrder(false)
+	vrt.StepLimit(400_000_000)
+	vrt.LoopBound(8192)
+	const N = 1100
+	p := newPlenc(cfgDef)
+	var buf [16]byte
+	got := make([]string, 0, N+2)
+	want := make([]string, 0, N+2)
+	decode := func(s string) {
+		plain := sPlainS{S: s}
+		enc, err := p.Marshal(buf[:0], &plain)
+		vrt.Assert("marshal ok", err == nil)
+		var oi sIntern
+		vrt.Assert("unmarshal interned ok", p.Unmarshal(enc, &oi) == nil)
+		got, want = append(got, oi.S), append(want, s)
+		for i := range enc {
+			enc[i] = 0xAA // the input buffer is re-used by the caller
+		}
+	}
+	digits := "0123456789abcdefghijklmnopqrstuvwxyz"
+	for i := 0; i < N; i++ {
+		decode(string([]byte{'v', digits[i/36/36%36], digits[i/36%36], digits[i%36]}))
+	}
+	for step := 0; step < 2; step++ {
+		decode(vrt.String(idx("s", step), 2))
+	}
+	// spot checks over the whole history, ends and the usual table sizes included
+	for _, i := range []int{0, 1, 254, 255, 256, 511, 512, 1022, 1023, 1024, 1025, N - 1, N, N + 1} {
+		vrt.Assert("strings returned earlier never change", got[i] == want[i])
+	}
+}
